@@ -84,6 +84,8 @@ def gen_scenario(rng, tier, prepop_kinds=()):
             "junk": rng.random() < 0.7, "seed": rng.randrange(1 << 30), "enum": rng.choice(["sorted", "reverse", "shuffle", "shuffle"]),
             "via": rng.choice(["lib", "lib", "cli"]), "meta_as_dir": ntor > 1 and rng.random() < 0.5,
             "search_as_file": rng.random() < 0.15, "two_phase": rng.random() < 0.15,
+            "spell_paths": rng.choice(["trailing-slash", "dot-segment", "double-sep", "dotdot", "relative"])
+            if rng.random() < 0.15 else None,
             "repeats": 1}
 
 
@@ -259,12 +261,30 @@ def run_rebuild(case, world, captured):
     search = list(world["search"])
     if case.get("search_as_file") and world.get("loose_file"):
         search.append(world["loose_file"])          # a search path may also name one file directly
+    dest = world["dest"]
+    sp = case.get("spell_paths")
+    if sp:
+        # the same directories as a user may type them
+        def respell(p, how):
+            if not os.path.isdir(p):
+                return p
+            parent, base = os.path.split(p)
+            return {"trailing-slash": p + "/", "dot-segment": os.path.join(parent, ".", base),
+                    "double-sep": parent + "//" + base, "dotdot": os.path.join(p, "..", base),
+                    "relative": os.path.relpath(p)}[how]
+        if sp == "relative":
+            os.chdir(os.path.dirname(dest))
+        os.makedirs(dest, exist_ok=True)
+        dest = respell(dest, sp)
+        search = [respell(x, sp) for x in search]
+        metas = [respell(x, sp) for x in metas]
+        captured["paths_respelled"] = True
     try:
         if case["via"] == "cli":
-            oc = drive.cli_execute(["rebuild", "-m"] + metas + ["-c"] + search + ["-d", world["dest"]])
+            oc = drive.cli_execute(["rebuild", "-m"] + metas + ["-c"] + search + ["-d", dest])
         else:
             try:
-                oc = drive.Outcome(ret=rebuild.Assembler(metas, search, world["dest"]).assemble_torrents())
+                oc = drive.Outcome(ret=rebuild.Assembler(metas, search, dest).assemble_torrents())
             except BaseException as exc:  # noqa
                 import traceback
                 oc = drive.Outcome(exc=exc, tb=traceback.format_exc())
@@ -352,7 +372,7 @@ def _decoy_first(world, captured):
     fm = captured.get("filemap", {})
     decoys = set(world["decoy_digests"].values())
     for name, locs in fm.items():
-        paths = [p for p, _ in locs]
+        paths = [os.path.abspath(p) for p, _ in locs]
         di = [i for i, p in enumerate(paths) if p in decoys]
         gi = [i for i, p in enumerate(paths) if p not in decoys]
         if di and gi and min(di) < min(gi):
@@ -419,6 +439,8 @@ class C13:
         env.AUDIT.start()
         oc = run_rebuild(case, world, captured)
         events = env.AUDIT.stop()
+        if captured.get("paths_respelled"):
+            counters["directories_respelled_cases"] = 1
         counters["copy_events"] = sum(1 for e, _ in events if e == "shutil.copyfile")
         for e, _ in events:
             counters["audit:" + e] = counters.get("audit:" + e, 0) + 1
@@ -569,6 +591,8 @@ class C14:
             oc = run_rebuild(case, world, captured)
             events = env.AUDIT.stop()
             details = list(env.AUDIT.details)
+            if captured.get("paths_respelled"):
+                counters["directories_respelled_cases"] = 1
             returned.append(oc.ret if oc.ok else oc.excname())
             decoy_first += _decoy_first(world, captured)
             counters["copy_events"] = counters.get("copy_events", 0) + sum(1 for e, _ in events if e == "shutil.copyfile")
